@@ -78,10 +78,10 @@ theorem for_stops_on_falsy (f : Nat) (c : Expr) (inc : Option Expr) (b : Stmt) (
   rw [forLoop]; simp only [guardErr, ER.seq, Res.bind, hc]; simp [guardErr, ER.seq, Res.bind, ht, nilOk]
 
 /-- the initializer runs once, in the loop's own fresh scope, before the first test -/
-theorem for_initializer_once (f : Nat) (i : Stmt) (c : Expr) (inc : Option Expr) (b : Stmt) (env : Nat) (repl : Bool)
+theorem for_initializer_once (f : Nat) (i : Stmt) (c : Option Expr) (inc : Option Expr) (b : Stmt) (env : Nat) (repl : Bool)
     (σ σ2 : Store) (v : Val) (h0 : σ.hadError = false)
     (hi : evalS P f i σ.envs.length repl (σ.newEnv (some env)).1 = .ok (v, .none) σ2) :
-    evalS P (f + 1) (.forS (some i) c inc b) env repl σ = forLoop P f c inc b σ.envs.length repl σ2 := by
+    evalS P (f + 1) (.forS (some i) c inc b) env repl σ = forLoop P f (forCond c) inc b σ.envs.length repl σ2 := by
   rw [evalS]; simp only [guardErr, ER.seq, Res.bind, h0]
   simp [Store.newEnv] at hi ⊢
   simp [hi]
@@ -103,6 +103,9 @@ theorem break_continue_signals (f : Nat) (line env : Nat) (repl : Bool) (σ : St
     evalS P (f + 1) (.breakS line) env repl σ = .ok (.nil, .brk line) σ ∧
     evalS P (f + 1) (.continueS line) env repl σ = .ok (.nil, .cont line) σ := by
   constructor <;> (rw [evalS]; simp [guardErr, ER.seq, Res.bind, h0])
+
+/-- a `ফর` statement without a condition runs as if its condition were the literal `true` -/
+theorem for_missing_condition_true : forCond none = .literal (.bool true) 0 ∧ ∀ e, forCond (some e) = e := ⟨rfl, fun _ => rfl⟩
 
 end
 end Borno.Props.C05
